@@ -1,5 +1,5 @@
 SPECIFICATION SpecSim
 CONSTANTS MaxLen = 48
 Alphabet <- AlphaAll
-INVARIANTS NormalFormSafe NormalFormFixed IdentitySafe
+INVARIANTS NormalFormSafe NormalFormFixed IdentitySafe AsIsIndexSafe AsIsOKOutsideKnown FixedOK
 CHECK_DEADLOCK FALSE
